@@ -115,21 +115,39 @@ class Run:
         # replay each distinct counterexample key once
         seen = {}
         self.unreplayed = 0
-        for o in cexs:
+        tried = {}
+        for i_o, o in enumerate(cexs):
             key = o.get('key') or o['label']
             if key in seen:
-                continue
-            seen[key] = o
-            if len(seen) > 12:
+                # an earlier witness of this class did not reproduce: try up
+                # to three further witnesses of the same class before the
+                # class is declared non-reproducing
+                if seen[key] is not None or tried.get(key, 0) >= 4 or \
+                        replay_fn is None or o.get('cex') is None:
+                    continue
+            elif len(seen) >= 12:
+                seen[key] = o
                 self.unreplayed += 1
                 continue
             reproduced, desc, path = True, o.get('note', ''), None
             if replay_fn is not None and o.get('cex') is not None:
+                tried[key] = tried.get(key, 0)+1
                 try:
                     reproduced, desc = replay_fn(o['cex'])
                 except Exception as e:   # noqa
                     reproduced, desc = False, f"replay raised {e!r}"
                     traceback.print_exc()
+            if not reproduced and tried.get(key, 0) < 4 and any(
+                    (o2.get('key') or o2['label']) == key and o2 is not o
+                    and o2.get('cex') is not None and o2.get('cex') !=
+                    o.get('cex') for o2 in cexs[i_o+1:]):
+                seen[key] = None          # keep trying other witnesses
+                self.notes.append(f"a witness of class '{key}' did not "
+                                  f"reproduce on the real code ({desc[:160]}); "
+                                  f"trying another witness of the same class")
+                continue
+            seen[key] = o
+            nonrepro[:] = [x for x in nonrepro if x[0] != key]
             if o.get('cex') is not None:
                 path = self._write_replay(key, o, desc)
             self.replayed.append(dict(key=key, path=path,
